@@ -85,6 +85,20 @@ struct Expander {
     c.set_knob("sched_index", static_cast<int64_t>(j));
     if (S > 1) c.set_knob("program_seed", static_cast<int64_t>(pseed & 0x7fffffffffffffffULL));
     Rng k = stream(seed, S_KNOBS);
+    if (eng->systematic_sweep() && j >= 2) {
+      // systematic double preemption over the three template threads: cell -> (order of the three, hook i of x, hook j of z)
+      static const int perm[6][3] = {{1, 2, 3}, {1, 3, 2}, {2, 1, 3}, {2, 3, 1}, {3, 1, 2}, {3, 2, 1}};
+      const uint64_t cell = j - 2, pi = cell % 6, rest = cell / 6;
+      const int x = perm[pi][0], y = perm[pi][1], z = perm[pi][2];
+      auto len0 = [&](int id) -> uint64_t { return static_cast<size_t>(id) < eng->measured_op0.size() && eng->measured_op0[static_cast<size_t>(id)] > 0 ? eng->measured_op0[static_cast<size_t>(id)] : 24; };
+      const uint64_t Lx = len0(x) + 2, Lz = len0(z) + 2, grid = (S - 2) / 6;
+      const uint64_t stride = std::max<uint64_t>(1, (Lx * Lz + grid - 1) / grid);  // thin the grid evenly if it does not fit
+      const uint64_t lin = rest * stride + (k.below(stride));
+      c.set_knob("strategy", ST_SWEEP2);
+      c.set_knob("sw_x", x); c.set_knob("sw_y", y); c.set_knob("sw_z", z);
+      c.set_knob("sw_i", static_cast<int64_t>(1 + lin % Lx)); c.set_knob("sw_j", static_cast<int64_t>(1 + (lin / Lx) % Lz));
+      return c;
+    }
     if (S == 1 || j == 0) {
       c.set_knob("strategy", ST_SEQUENTIAL);
     } else if (j == 1) {
@@ -134,6 +148,7 @@ struct Expander {
     Result r = eng->run(m);
     (void)r;
     eng->measured = thread_lengths();
+    eng->measured_op0 = thread_op0_hooks();
     eng->has_measured = true;
     if (seed % S != 1) {  // conflict points of the descending order as well
       Case d = expand(pseed + 1);
@@ -267,7 +282,7 @@ int mode_run(int argc, char** argv) {
     Case c = ex.expand(s);
     set_die_context(s, eng->name());
     Result r = eng->run(c);
-    if (s % S == 0 && S > 1) { eng->measured = thread_lengths(); eng->has_measured = true; }
+    if (s % S == 0 && S > 1) { eng->measured = thread_lengths(); eng->measured_op0 = thread_op0_hooks(); eng->has_measured = true; }
     if (S > 1) {
       if (s / S != pb1_program) { pb1_flush(); pb1_program = s / S; }
       if (s % S == 0) { pb1_seq_hooks = 0; const auto hc = thread_hook_counts(); for (size_t t = 1; t < hc.size(); t++) pb1_seq_hooks += hc[t]; }
